@@ -23,8 +23,7 @@ ASSUMPTIONS = ["Rust semantics of Vec/usize as modelled (checked indexing, debug
                "the sampled cases are where model and code were compared; the theorems are about the model",
                "eval / derivative / derivative_at of the EMPTY polynomial panic in code and model (unwrap of degree()); "
                "'the empty polynomial acts as zero' is read as a statement about sums and products (DESIGN 7, C11)"]
-UNPROVED = ["rounding behaviour for coefficients that are not exactly representable is outside the property ('holds exactly for exactly-representable coefficients'); "
-            "the float tier is bit-compared with the primitive-float instance of the same Gallina functions",
+UNPROVED = ["round two: peval_backward_error / peval_forward_error (Horner, gamma_2d) in the standard model and at binary64; otherwise rounding for inexact coefficients is outside the property; the float tier is bit-compared with the primitive-float instance of the same Gallina functions",
             "operand non-mutation and owned = borrowed operator forms are run-time observations of the executor (a value model satisfies them vacuously)"]
 
 MANIFEST = dict(
